@@ -34,6 +34,30 @@ def shift_register_form(rep, c, env, inp):
     stages = c.parse("self.input_stages")
     conds = {c.norm(ir.parse(t)) for t in ("self.input_stages > 0", "self.input_stages != 0", "self.input_stages", "self.input_stages >= 1")}
     cands = [s for s in c.t.sigs.values() if s.ctor[0] == 'call' and s.ctor[2] and c.norm(s.ctor[2][0]) == stages]
+    # third shape: the library's synchroniser cell, FFSynchronizer(pin.i, <wire>, stages=E): E flip-flops in a row
+    ffs = [(nm, c.norm(v), gen, ln) for nm, v, gen, ln in c.t.submodules
+           if v[0] == 'call' and ir.show(v[1]).split(".")[-1] == "FFSynchronizer"]
+    if len(cands) != 1 and ffs:
+        for nm, v, gen, ln in ffs:
+            kw = dict(v[3])
+            e_st = c.norm(kw["stages"]) if "stages" in kw else (c.norm(v[2][2]) if len(v[2]) > 2 else ('const', 2))
+            src = v[2][0] if v[2] else kw.get("i")
+            if src is not None and c.norm(src) != c.parse("pin.i", env):
+                rep.bad("C16.1", site, "synchroniser cell input", f"the cell samples {ir.show(c.norm(src))}, not the pin input", line=ln)
+            elif e_st != stages and not (
+                    e_st[0] == 'const' or
+                    e_st[0] == 'call' and e_st[1] in (('name', 'max'), ('name', 'min')) and stages in e_st[2] and any(a[0] == 'const' for a in e_st[2]) or
+                    e_st[0] == 'lin' and len(e_st[2]) == 1 and e_st[2][0][0] == stages and (e_st[1] != 0 or e_st[2][0][1] != 1)):
+                rep.unk("C16.1", site, "chain length == input_stages", f"the synchroniser cell is built with stages={ir.show(e_st)}; "
+                        "whether that always equals input_stages is not decided")
+            elif e_st != stages:
+                rep.bad("C16.1", site, "chain length == input_stages",
+                        f"the synchroniser cell is built with stages={ir.show(e_st)}: the Input register lags the pin by that many cycles, which "
+                        f"differs from the configured {ir.show(stages)} whenever the two expressions differ (e.g. a lower bound of 2 against "
+                        "input_stages == 1)", line=ln)
+            else:
+                rep.unk("C16.1", site, "synchroniser cell", "FFSynchronizer(stages=self.input_stages): the cell's own lower bound on stages is not modelled")
+        return
     if len(cands) != 1:
         rep.unk("C16.1", site, "synchroniser chain", "neither a loop-carried chain starting at pin.i nor one input_stages-bit shift register per pin was found")
         return
@@ -92,6 +116,12 @@ def run(rep, idx, tier):
     rep.require("C16.3", 4)
     rep.require("C16.4", 1)
     rep.require("C16.5", 5)
+    rep.require("C16.6", 2)
+    from . import glue as _glue
+    # the input synchroniser stages are reset-less on purpose (their value after reset is the pin level within
+    # input_stages cycles either way); the output storage register is not
+    _glue.reset_discipline(rep, "C16.6", idx, ["gpio:Peripheral", "gpio:Peripheral.Output._FieldAction"],
+                           allowed=[("Peripheral", "pin_i_sync_ff")])
     c = get_ctx(idx, "gpio:Peripheral.elaborate")
     ctor = get_ctor(idx, "gpio:Peripheral")
     rep.analysed(c.fi.site, ctor.fi.site)
